@@ -267,7 +267,12 @@ def match_functions(fns, src):
         groups.setdefault(key, []).append((t, chain))
     out = []
     for fn in fns:
-        key = (fn.lineno, getattr(fn, 'name', 'lambda'), tuple(p.arg for p in fn_params(fn)))
+        a = fn.args
+        # symtable lists the parameters in the order symtable.c visits them: positional-only, positional, keyword-only,
+        # then *args and **kwargs (NOT the declaration order of fn_params)
+        sym_order = [p.arg for p in a.posonlyargs + a.args + a.kwonlyargs] + \
+            ([a.vararg.arg] if a.vararg else []) + ([a.kwarg.arg] if a.kwarg else [])
+        key = (fn.lineno, getattr(fn, 'name', 'lambda'), tuple(sym_order))
         g = groups.get(key, [])
         if len(g) != 1:
             return None
